@@ -282,6 +282,26 @@ def run(E: Engine, rep: Report, tier: str) -> dict:
         rep.check(ok_, "SIB", f"QutipEmulator.{nm_}|initial-state-kept-iff-dimension-unchanged", "the current initial state is re-applied when the dimension is unchanged; 'all-ground' only when it changed", f"QutipEmulator.{nm_} no longer keeps the user's initial state when the new configuration leaves the dimension unchanged (set_initial_state('all-ground') must run only under self.dim != former_dim)", E.where(g_))
     rep.floor("SIB", 10)
 
+    # ------------------------------------------------- PASS: the solver is only run with validated options
+    # _validate_options derives max_step / nsteps from the samples; without max_step the adaptive solver steps over a
+    # pulse that follows a long idle period.  Every way into _run_solver / _noisy_runs hands over options that passed
+    # _validate_options in the same function (or is one of QutipEmulator's own methods called with such options).
+    emu = "pulser_simulation.simulation.QutipEmulator"
+    rs, nr = E.fn(emu + "._run_solver"), E.fn(emu + "._noisy_runs")
+    n_solv = 0
+    for tgt in (rs, nr):
+        for caller, _ev in E.callers_of(tgt):
+            Sc_ = S(E, caller, inline=False)
+            own_ = [l for l in Sc_.log if l.fn == caller.short and l.kind == "call" and l.target is not None and l.target[0] == "attr"]
+            for l in [x for x in own_ if x.target[2] == tgt.name]:
+                n_solv += 1
+                opts = [v for k, v in l.value[3] if k == "**"]
+                validated = [v for x in own_[: own_.index(l)] if x.target[2] == "_validate_options" for v in x.value[2][:1]]
+                passthrough = caller.cls is not None and caller.cls.qualname == emu and caller.name.startswith("_") and opts == [("name", caller.node.args.kwarg.arg)] if caller.node.args.kwarg is not None else False
+                ok_ = bool(opts) and (opts[0] in validated or bool(passthrough))
+                rep.check(ok_, "PASS", f"{caller.short}|{tgt.name}|options-validated", "the solver options handed over passed _validate_options (max_step from the samples)", f"{caller.short} calls {tgt.name}({'**' + sh(opts[0], 30) if opts else 'no options'}) without options that passed QutipEmulator._validate_options: no max_step is set, so the adaptive solver can step over a pulse that follows an idle period (the V2 backend then disagrees with QutipEmulator.run on the same sequence)", E.where(caller, l.node))
+    rep.floor("PASS", 3)
+
     # ------------------------------------------------- UNIT: one idiom for the ns -> us conversion of the total duration
     # The emulator compares / merges times computed at different sites (evaluation times handed over by the backend
     # config, the end of the sequence, the relative time of a result).  x * 1e-3 and x / 1000 differ in the last bit
